@@ -5,7 +5,7 @@
 (* One call of thread t is a fixed sequence of CRITICAL SECTIONS (constant Sections, measured on   *)
 (* the real library by the harness in a solo run): "ctor" (register the thread), "lookup" (find    *)
 (* own entry: every configuration / input-storage access), "count" (%{snoopy_threads}),            *)
-(* "dtorfind", "dtorremove".  Each section is two steps: Lock(t) = acquire + body, Unlock(t) = release. *)
+(* "io" (a write(2) issued by an output, no lock held: a further scheduling point), "dtorfind", "dtorremove".  Each section is two steps: Lock(t) = acquire + body, Unlock(t) = release. *)
 (* Code between sections is thread-local.  A scheduler step runs one thread to its next             *)
 (* synchronisation point, which is exactly what the replay harness does on the real code.           *)
 (*                                                                                                *)
@@ -57,6 +57,7 @@ Runnable(p, t) ==
     /\ exists[p]
     /\ LET s == pc[p][t] IN
        \/ s.ph = "idle" /\ s.call <= CallsOf(p)
+       \/ s.ph = "want" /\ Sections[s.sec] = "io"
        \/ s.ph \in {"want", "forkwant"} /\ owner[p] \in {0, t}
        \/ s.ph \in {"hold", "forkhold"}
 
@@ -76,7 +77,7 @@ Enter(p, t) == /\ exists[p] /\ pc[p][t].ph = "idle" /\ pc[p][t].call <= CallsOf(
 
 (* acquire the mutex and execute the body of the section (the thread then stands at its unlock call) *)
 Lock(p, t) ==
-    /\ exists[p] /\ pc[p][t].ph = "want" /\ owner[p] \in {0, t}
+    /\ exists[p] /\ pc[p][t].ph = "want" /\ (owner[p] \in {0, t} \/ Sections[pc[p][t].sec] = "io")
     /\ LET s == pc[p][t] IN LET kind == Sections[s.sec] IN
        /\ list' = [list EXCEPT ![p] = CASE kind = "ctor" /\ ~InList(p, t) -> Append(list[p], t)
                                         [] kind = "dtorremove" /\ "no_unregister" \notin Defects -> Without(list[p], t)
@@ -85,7 +86,7 @@ Lock(p, t) ==
                                           [] kind = "dtorremove" /\ "no_unregister" \notin Defects /\ InList(p, t) -> count[p] - 1
                                           [] OTHER -> count[p]]
        /\ seen' = IF kind = "count" THEN [seen EXCEPT ![p][t] = Append(seen[p][t], count[p])] ELSE seen
-    /\ owner' = [owner EXCEPT ![p] = t]
+    /\ owner' = IF Sections[pc[p][t].sec] = "io" THEN owner ELSE [owner EXCEPT ![p] = t]     \* "io": a system call outside any lock
     /\ pc' = [pc EXCEPT ![p][t].ph = "hold"]
     /\ UNCHANGED <<exists, forked, inited>>
     /\ Sched(p, t) /\ Record(p, t, "lock")
@@ -96,7 +97,7 @@ Unlock(p, t) ==
     /\ exists[p] /\ pc[p][t].ph = "hold"
     /\ LET s == pc[p][t] IN
        pc' = [pc EXCEPT ![p][t] = IF s.sec < NS THEN [call |-> s.call, sec |-> s.sec + 1, ph |-> "want"] ELSE Idle(s.call + 1)]
-    /\ owner' = [owner EXCEPT ![p] = 0]
+    /\ owner' = IF Sections[pc[p][t].sec] = "io" THEN owner ELSE [owner EXCEPT ![p] = 0]
     /\ UNCHANGED <<exists, list, count, seen, forked, inited>>
     /\ Sched(p, t) /\ Record(p, t, "unlock")
 
@@ -148,6 +149,7 @@ Quiescent == \A p \in Procs : (exists[p] /\ \A t \in Threads : pc[p][t].ph \in {
 CountSane == \A p \in Procs, t \in Threads : \A i \in 1..Len(seen[p][t]) : seen[p][t][i] >= 1 /\ seen[p][t][i] <= Cardinality(Threads)
 (* C09 / C10: no reachable state in which somebody is inside a call (or a fork) and nobody can move *)
 Stuck(p, t) == exists[p] /\ pc[p][t].ph \in {"want", "forkwant"} /\ owner[p] \notin {0, t}
+                 /\ ~(pc[p][t].ph = "want" /\ Sections[pc[p][t].sec] = "io")
                  /\ \A u \in Threads : ~(pc[p][u].ph \in {"hold", "forkhold"})          \* the owner is not a live thread of p
 NoDeadlock == \A p \in Procs, t \in Threads : ~Stuck(p, t)
 =============================================================================
